@@ -615,3 +615,4 @@ CHECKS["C18"]["units"].append(unit(CTRL_PKG, CTRL_FILES, "^Harness_OPS_wet_creat
 CHECKS["C38"]["units"].append(unit("./internal/storage/ledger", ["storage/bunhook.go", "storage/c38expand.go"], "^Harness_C38_expand_", QT, flags={"labels": "^(C38:|no-panic)", "max-decisions": 2000}, reach=["end"]))
 CHECKS["C38"]["explanation"] += " The expand parameter: the real Expand methods of the accounts, transactions, logs and volumes resource handlers get a symbolic value that is none of the documented ones: it is refused or ignored, never built into the statement (bun opaque; strcase.SnakeCase of a symbolic string is an arbitrary string)."
 CHECKS["C38"]["bounds"]["quick"] += "; expand values of <= 8 symbolic bytes"
+CHECKS["C38"]["explanation"] += " Cursors: besides 'no panic', every ORDER BY expression of a statement emitted for a decoded cursor sorts by a field of the resource (the column of a cursor is client text)."
